@@ -290,6 +290,18 @@ def inside_if(pred):
     return f
 
 
+def widen_only(body):
+    """drop a statement `if <test on dtypes>: keys = keys.astype(np.int64)`: a widening of the element type changes no value over Z.
+    Anything else inside such an `if` is not dropped (the kernel then fails to translate: fail closed)."""
+    out = []
+    for s in body:
+        if isinstance(s, ast.If) and ".dtype" in ast.unparse(s.test):
+            if not s.orelse and [ast.unparse(b) for b in s.body] == ["keys = keys.astype(np.int64)"]: continue
+            raise Unsupported("dtype-dependent branch that does more than widen: " + ast.unparse(s)[:80])
+        out.append(s)
+    return out
+
+
 RS = "npstructures/raggedshape.py"
 CS = {("col_slice", "start"): "cs_start", ("col_slice", "stop"): "cs_stop", ("col_slice", "step"): "cs_step"}
 KERNELS = [
@@ -313,7 +325,8 @@ KERNELS = [
     # RaggedView2.ends
     Kernel(RS, "RaggedView2", "ends", "gen_ends", [("s_", "Z"), ("len_", "Z"), ("c_", "Z")], {}, selfmap={"lengths": "len_", "starts": "s_", "col_step": "c_"}),
     # HashTable._get_hash / _get_mod
-    Kernel("npstructures/hashtable.py", "HashTable", "_get_hash", "gen_hash", [("keys", "Z"), ("mod_", "Z")], {}, selfmap={"_mod": "mod_"}),
+    Kernel("npstructures/hashtable.py", "HashTable", "_get_hash", "gen_hash", [("keys", "Z"), ("mod_", "Z")], {}, selfmap={"_mod": "mod_"},
+           branch=lambda body: widen_only(body)),
     # RunLengthArray._get_position: negative wrap of the index
     Kernel("npstructures/runlengtharray.py", "RunLengthArray", "_get_position", "gen_rle_wrap", [("idx", "Z"), ("n_", "Z")], {},
            calls={"len:self": "n_", "self._ends[-1]": "n_"}, branch=lambda body: [ast.Return(value=body[0].value)]),
